@@ -156,8 +156,13 @@ def _scratch() -> str:
 
 
 def _fresh(name: str) -> str:
-    _COUNTER[0] += 1
-    return os.path.join(_scratch(), f"{_COUNTER[0]:06d}-{name}")
+    """Scratch file name.  Image files deliberately RE-USE one name per process and role (files are
+    overwritten with other content again and again, as users do): a reader has to return what the
+    file holds now.  Cache files of corrections get unique names."""
+    if name.startswith("curvature-cache"):
+        _COUNTER[0] += 1
+        return os.path.join(_scratch(), f"{_COUNTER[0]:06d}-{name}")
+    return os.path.join(_scratch(), f"reused-{os.getpid()}-{name}")
 
 
 def _rm(*paths) -> None:
@@ -740,7 +745,9 @@ def run_corr(case, r):
     corr, probes, warm = build_correction(case)
     if warm is not None:
         apply_outcome(corr, warm)  # the correction has been used before it is saved
-    path = Path(_fresh(f"{cls}.npz"))
+    # One file name per correction class and process, written again and again with different
+    # configurations (a user overwriting "drift.npz"): a reader must return what the file holds NOW.
+    path = Path(os.path.join(_scratch(), f"reused-{os.getpid()}-{cls}.npz"))
     try:
         ok, _ = stage(r, f"C18/correction/{cls}/save/{key}", "a configured correction can be saved", lambda: corr.save(path))
         if not ok:
